@@ -6,21 +6,21 @@ macro "ns_tac2" : tactic => `(tactic| (constructor <;> grind [List.nodup_append,
 set_option maxHeartbeats 1000000 in
 theorem setKey_name_nsinv (s : N) (e v) (h : NsInv s) : NsInv (step s (.setKey e .name v)).1 := by
   have U3 := names_unique' h
-  obtain ⟨h1,h2,h3,h4⟩ := h
+  obtain ⟨h1,h2,h3,h4,h5⟩ := h
   simp only [step, N.nameOk, N.tblUpdate, N.noConflict, Rec.get, Rec.set, validName, reduceCtorEq, false_and, and_false, if_false, true_and, if_true]
   repeat' split
   all_goals first
-    | exact ⟨h1,h2,h3,h4⟩
+    | exact ⟨h1,h2,h3,h4,h5⟩
     | ns_tac2
 
 set_option maxHeartbeats 1000000 in
 theorem setKey_ident_nsinv (s : N) (e v) (h : NsInv s) : NsInv (step s (.setKey e .ident v)).1 := by
   have U4 := idents_unique' h
-  obtain ⟨h1,h2,h3,h4⟩ := h
+  obtain ⟨h1,h2,h3,h4,h5⟩ := h
   simp only [step, N.nameOk, N.tblUpdate, N.noConflict, Rec.get, Rec.set, reduceCtorEq, false_and, and_false, if_false, true_and, and_true]
   repeat' split
   all_goals first
-    | exact ⟨h1,h2,h3,h4⟩
+    | exact ⟨h1,h2,h3,h4,h5⟩
     | ns_tac2
 
 theorem setKey_nsinv (s : N) (e k v) (h : NsInv s) : NsInv (step s (.setKey e k v)).1 := by
@@ -29,10 +29,10 @@ theorem setKey_nsinv (s : N) (e k v) (h : NsInv s) : NsInv (step s (.setKey e k 
   · exact setKey_ident_nsinv s e v h
 
 theorem create_nsinv (s : N) (e) (h : NsInv s) : NsInv (step s (.create e)).1 := by
-  obtain ⟨h1,h2,h3,h4⟩ := h
+  obtain ⟨h1,h2,h3,h4,h5⟩ := h
   simp only [step]
   split
-  · exact ⟨h1,h2,h3,h4⟩
+  · exact ⟨h1,h2,h3,h4,h5⟩
   · rename_i hg
     have hk : ∀ c, s.parent c ≠ some e := by
       intro c hc
@@ -43,10 +43,10 @@ theorem create_nsinv (s : N) (e) (h : NsInv s) : NsInv (step s (.create e)).1 :=
 set_option maxHeartbeats 2000000 in
 /-- registering an orphan whose keys do not conflict with the parent's table keeps the invariant -/
 theorem register_nsinv (s : N) (p c : El) (h : NsInv s) (hc : s.parent c = none)
-    (hnc : s.conflicts p c = false) : NsInv (s.register p c) := by
+    (hnc : s.conflicts p c = false) (hv : validParent p.kind c.kind = true) : NsInv (s.register p c) := by
   have U3 := names_unique' h
   have U4 := idents_unique' h
-  obtain ⟨h1,h2,h3,h4⟩ := h
+  obtain ⟨h1,h2,h3,h4,h5⟩ := h
   simp only [N.conflicts, N.noConflict, reduceCtorEq, if_false, if_true] at hnc
   simp only [N.register, N.tblUpdate, reduceCtorEq, false_and, and_false, if_false, true_and]
   cases hi : (s.info c).ident <;> cases hn : (s.info c).name <;> simp only [hi, hn] at hnc ⊢ <;> ns_tac2
@@ -60,9 +60,11 @@ theorem attach_same_policy_nsinv (s : N) (p c : El) (pp : Policy) (h : NsInv s)
   · exact h
   · split
     · exact h
-    · rename_i hpar hconf
-      have e1 : s.setNsCore c pp = (s, .ok) := by simp [N.setNsCore, hc]
-      simp only [hp, e1, ne_eq, not_true_eq_false, if_false]
-      exact register_nsinv s p c h (by simpa using hpar) (by simpa using hconf)
+    · split
+      · exact h
+      · rename_i hv hpar hconf
+        have e1 : s.setNsCore c pp = (s, .ok) := by simp [N.setNsCore, hc]
+        simp only [hp, e1, ne_eq, not_true_eq_false, if_false]
+        exact register_nsinv s p c h (by simpa using hpar) (by simpa using hconf) (by simpa using hv)
 
 end Spydr.Names
